@@ -601,6 +601,13 @@ func (d *driver) runScenario(sc *Scenario) (err error) {
 			d.hammer(st)
 		case "storm":
 			d.storm(st)
+		case "flood":
+			// st.D requests without a cookie, each of which makes the service create a session (a busy service holds thousands);
+			// only the count is logged
+			for k := 0; k < st.D; k++ {
+				c := d.start(&Step{Op: "check", B: fmt.Sprintf("flood%d", k), F: st.F, Kind: "app", Cookie: "none", URL: k % len(urlPool), Ans: st.Ans, Shape: "sameSessionParallel"})
+				d.finish(c)
+			}
 		case "secret":
 			// the Kubernetes Secret st.F gets the value st.Value and the controller reconciles it
 			if err := d.setSecret(st.F, st.Value); err != nil {
